@@ -158,6 +158,7 @@ GetItemX(heap, cur, arg) ==
      THEN (IF arg = VStr("b") THEN R(heap, Exc("RuntimeError"))
            ELSE IF HasKey(heap[cur.a].items, arg) THEN R(heap, Ok(Lookup(heap[cur.a].items, arg))) ELSE R(heap, Exc("KeyError")))
      ELSE IF cur.k = "str" /\ cur.s \notin DOMAIN StrChars /\ arg.k = "int" THEN R(heap, OutOfModel)   \* string not in the table
+     ELSE IF cur.k = "sent" /\ arg.k \in {"int", "bool"} THEN R(heap, OutOfModel)      \* indexing an opaque scalar (a bytes value)
      ELSE IF arg.k \in {"int", "str", "none"} THEN R(heap, GetItem(heap, cur, arg)) ELSE R(heap, OutOfModel))
   ELSE IF ~SliceOk(arg) THEN R(heap, Exc("TypeError"))
   ELSE IF arg.st.k = "int" /\ arg.st.i = 0 THEN
